@@ -9,7 +9,12 @@ import (
 )
 
 type CheckWhen struct {
+	// how many when expressions are being evaluated to get here. finding the nodes an
+	// expression names evaluates the when of those nodes
+	depth int
 }
+
+const maxWhenDepth = 16
 
 func (y CheckWhen) CheckContainerPostConstraints(r ChildRequest, s *Selection) (bool, error) {
 	if meta.IsList(r.Meta) {
@@ -82,10 +87,18 @@ func (y CheckWhen) eval(s *Selection, m meta.Meta, when *meta.When, own bool) (b
 		}
 		return nil, fmt.Errorf("prefix '%s' in when expression \"%s\" is not defined", prefix, when.Expression())
 	}
+	if y.depth >= maxWhenDepth {
+		return false, fmt.Errorf("when expression \"%s\" depends on itself", when.Expression())
+	}
 	xp, err := xpath.Parse2(lookup, when.Expression())
 	if err != nil {
 		return false, err
 	}
+	nested := *s
+	nested.Constraints = NewConstraints(s.Constraints)
+	nested.Constraints.removeConstraint("~when")
+	nested.Constraints.AddConstraint("~when", 100, 0, CheckWhen{depth: y.depth + 1})
+	s = &nested
 	if own && meta.IsLeaf(m) && xp.Ident == ".." && xp.Expr == nil && xp.Next != nil {
 		// context node of a when on a leaf is the leaf and the selection is already the
 		// leaf's parent: the first step up has been taken
